@@ -67,7 +67,7 @@ func (g *gen) structMap(c *Comp, fs []*Field, prefix string, depth int) map[stri
 		if c == CLI && dotted == "pools" {
 			continue
 		}
-		required := has(c.Required, dotted)
+		required := has(c.Required, dotted) || has(c.Always, dotted)
 		if !required && !g.chance(g.o.OptP, "opt") {
 			continue
 		}
@@ -203,7 +203,7 @@ func SectionOf(t *rapid.T, o Opts, c *Comp) map[string]any {
 	return g.sectionOf(c, 1)
 }
 
-var dataSizeTexts = []string{"512B", "4KB", "1MB", "8kb", "2gb", "100"}
+var dataSizeTexts = []string{"512B", "4KB", "64kb", "1MB", "100", "2mb"}
 var levelTexts = []string{"debug", "info", "warn", "error"}
 
 // minOf extracts N from a `min=N` validate tag.
